@@ -48,7 +48,9 @@ Record ginv (s : sys) (T : N) : Prop := {
   g_rb_dead : forall r ks, In (ERbSend r T ks) (s_sent s) -> F s T FDead <> 0;
   g_pwok : forall k, In k (pwok s T) -> pwdlv s T k;
   g_told_dead : F s T FTold = 2 \/ F s T FTold = 3 -> F s T FDead <> 0;
-  g_1pcts : F s T F1pcTs <> 0 -> F s T FTried1 <> 0
+  g_1pcts : F s T F1pcTs <> 0 -> F s T FTried1 <> 0;
+  g_async_cts : forall r p ttl m secs, In (ECtsReply r T p (StLocked ttl m true secs)) (s_dlv s) -> F s T FTriedA <> 0;
+  g_jasync : forall c, In (T, c, JAsync) (s_rs s) -> F s T FTriedA <> 0
 }.
 
 (* ---- invariants of a classic transaction whose mutations are known ---- *)
@@ -70,6 +72,14 @@ Record tinv (s : sys) (T : N) : Prop := {
   t_rb_dead : forall k, In k (lm s T) -> kget s T k = RolledBack -> Dd s T;
   t_told_ok : F s T FTold = 1 -> exists c, kget s T (prim s T) = Committed c
 }.
+
+(* classic = the owner never tried async commit / 1PC; a resolve derived from the CheckSecondaryLocks
+   fold then cannot exist (g_jasync) *)
+Lemma classic_flags : forall s T, ginv s T -> (classic s T <-> F s T FTriedA = 0 /\ F s T FTried1 = 0).
+Proof.
+  intros s T G. unfold classic. split; [tauto |]. intros [A B]. repeat split; auto.
+  intros c Hc. apply (g_jasync _ _ G) in Hc. contradiction.
+Qed.
 
 Definition Inv (s : sys) : Prop := forall T, ginv s T /\ (hasm s T -> classic s T -> tinv s T).
 
